@@ -35,6 +35,8 @@ func scenariosFor(prop string, thorough bool) []*scenario {
 		return c04Scenarios(thorough)
 	case "C14":
 		return c14Scenarios(thorough)
+	case "C03":
+		return c03Scenarios(thorough)
 	}
 	return nil
 }
@@ -481,6 +483,7 @@ func c16Scenarios(thorough bool) []*scenario {
 		}
 	}
 	r = append(r, nodeScenarios(thorough)...)
+	r = append(r, realRunScenarios(thorough)...)
 	r = append(r, managerScenarios(thorough)...)
 	return r
 }
